@@ -43,7 +43,7 @@ def init(ctx):
 def gen_cases(ctx):
     for inp in ctx.corpus():
         yield inp
-    n = ctx.n(360, 6000)
+    n = ctx.n(360, 3000)
     for i in range(n):
         rng = ctx.rng("movie", i)
         mv = linkcommon.gen_movie(rng, thorough=ctx.thorough, plant_history=(i % 2 == 0))
@@ -55,7 +55,7 @@ def gen_cases(ctx):
             mv["missing"] = [k]
             mv["frames"][k] = []
         yield mv
-    m = ctx.n(120, 2500)
+    m = ctx.n(120, 1200)
     for i in range(m):
         rng = ctx.rng("table", i)
         mv = linkcommon.gen_movie(rng, thorough=False)
